@@ -518,6 +518,9 @@ def verify_site(live, mm: MetaModel, world: World, sources: HookSources, decl_by
     res = SiteResult(site, label)
     sym = Site()
     res.sym = sym
+    from contracts.jsonsym import PathTyper
+
+    sym.typer = PathTyper(mm, site.tau)
     interp = HookInterp(world, sym)
     # --- the handler's function node
     if site.handler_kind == "hook":
